@@ -11,6 +11,7 @@ import (
 	"math/rand"
 	"net"
 	"os"
+	"runtime"
 	"sort"
 	"strings"
 	"sync"
@@ -529,6 +530,15 @@ func (e *subEnv) allowed(r *subRun, t string) bool {
 func (e *subEnv) quiesce() {
 	const bound = 10 * time.Second
 	targets := e.knownTargets()
+	// a POLL subscription has answered its initial request (or was refused)
+	for _, r := range e.sortedRuns() {
+		if r.started && r.d.Mode == "poll" {
+			if !r.waitFor(bound, func() bool { return r.syncs >= 1 }) && !r.isEnded() && !r.isStalled() {
+				e.emit(trace.E{"ev": "hang", "s": r.d.Name, "what": "poll not answered"})
+				e.hung = true
+			}
+		}
+	}
 	// initial snapshot complete (sync seen) for streams that walk
 	for _, r := range e.sortedRuns() {
 		if !r.started || r.d.Mode != "stream" {
@@ -905,6 +915,15 @@ func runSubScenario(w *trace.Writer, sc subScenario) bool {
 		e.quiesce()
 	}
 	// tear down
+	if os.Getenv("VERIF_DUMP") != "" {
+		for _, r := range e.sortedRuns() {
+			if r.started && !r.isEnded() && r.d.Mode == "poll" {
+				buf := make([]byte, 1<<20)
+				os.Stderr.Write(buf[:runtime.Stack(buf, true)])
+				break
+			}
+		}
+	}
 	for _, r := range e.sortedRuns() {
 		if r.started && !r.isEnded() {
 			e.emit(trace.E{"ev": "clientend", "s": r.d.Name})
